@@ -385,6 +385,15 @@ class C17(PropBase):
         cases = self.fs_cases(ctx["seed"]) if not ctx.get("replay") else [c for c in ctx["cases"] if c and not c.startswith("B ")]
         out = []
         stats = {"returned": 0, "created": 0}
+        n_cmp = [0]
+        mans = {}
+        try:
+            model_exe = vlib.ocaml_build(self.pid)
+            ma, mdead = vlib.run_lines([model_exe, "--fs"], cases, timeout=300, mem_gb=8)
+            if not mdead:
+                mans = {c: a for c, a in zip(cases, ma) if a and a.startswith(("R:", "SKIP", "NOSITE"))}
+        except Exception as e:                      # the model driver does not build: the oracle part still runs
+            ctx["info"]["fs_probe_model"] = "unavailable: %s" % str(e)[:200]
         for prof in self.profiles:
             exe = ctx["exes"][("c17", prof)]
             ans, dead = vlib.run_lines([exe, "--fs-probe"], cases, timeout=300, mem_gb=8, shards=16)
@@ -402,12 +411,26 @@ class C17(PropBase):
                 elif f[1] == "ESC":
                     out.append({"case": c, "profile": prof, "found_input": True, "what": "fs probe: " + f[2]})
                 else:
-                    r, n = f[2].split("|")
-                    stats["returned"] += int(r)
-                    stats["created"] += int(n)
+                    g = f[2].split("|")
+                    stats["returned"] += int(g[0])
+                    stats["created"] += int(g[1])
+                    m = mans.get(c) if mans else None
+                    if m is not None and len(g) >= 5 and "405440" not in c:
+                        # model vs code: what the flow model (Gen/C17Flow.v evaluated on the generated builders) says the
+                        # consumers return / create for this module
+                        want = m.split("|")
+                        if want[0] != "SKIP":
+                            n_cmp[0] += 1
+                            got = [g[2], g[3], "C:" + ",".join(sorted(x for x in g[4][2:].split(",") if x))]
+                            if got != want:
+                                out.append({"case": c, "profile": prof, "found_input": False,
+                                            "what": "fs correspondence: the flow model predicts %s (returned by HttpSymbolSupplier::locate_file per kind | by "
+                                                    "SimpleSymbolSupplier::locate_file on a populated directory | files created under the cache), the code did %s"
+                                                    % ("|".join(want), "|".join(got))})
         ctx["info"]["fs_probe_cases"] = len(cases) * len(self.profiles)
         ctx["info"]["fs_probe_paths_returned"] = stats["returned"]
         ctx["info"]["fs_probe_files_created"] = stats["created"]
+        ctx["info"]["fs_probe_predictions_compared"] = n_cmp[0]
         return out
 
     @staticmethod
